@@ -159,6 +159,11 @@ def build(need_race=False):
             vo = COQ + '/' + f[:-2] + '.vo'
             if not os.path.exists(vo) or os.path.getmtime(vo) < os.path.getmtime(COQ + '/' + f):
                 b.coq_failed.append(f)
+        # a file whose dependency failed keeps its OLD .vo: ask make what it would still rebuild
+        rc2, dry = sh('make -n -k 2>/dev/null', cwd=COQ)
+        for f in sorted(set(re.findall(r'COQC ([A-Za-z0-9_]+\.v)', dry))):
+            if f not in b.coq_failed:
+                b.coq_failed.append(f)
         if b.coq_failed:
             log('coq files not compiled:', b.coq_failed)
         # 4. oracle (extraction) when the model changed
@@ -247,11 +252,19 @@ def read_lines(path):
         return f.read().split('\n')[:-1]
 
 
+HARNESS_DEATHS = []
+
+
 def harness(args, timeout=3000, env_extra=None, binary='verifh'):
     env = dict(os.environ, VERIF_SEED=str(seed()))
     if env_extra:
         env.update(env_extra)
     p = subprocess.run([B + '/' + binary] + args, cwd=RUN, env=env, timeout=timeout, stdout=subprocess.PIPE, stderr=subprocess.PIPE, text=True)
+    if p.returncode != 0:
+        # the in-process harness died: an engine panic outside the guarded observation points (or a harness bug); never silently
+        # continue on a truncated stream
+        HARNESS_DEATHS.append({'command': binary + ' ' + ' '.join(str(a) for a in args), 'seed': env['VERIF_SEED'], 'exit': p.returncode,
+                               'stderr_head': p.stderr[:1500], 'stderr_tail': p.stderr[-600:]})
     stats = {}
     for l in p.stderr.split('\n'):
         if l.startswith('STATS '):
